@@ -232,7 +232,10 @@ def handle (st : St) (line : String) : St × String :=
     | _, _ => (st, "bad-op")
   | ["cf"] =>
     match st.last with
-    | some v => (st, if conforms st.prods v then "ok 1" else "ok 0")
+    | some v =>
+      match st.cl with
+      | some cl => (st, if conforms st.prods v && wellTyped cl v then "ok 1" else "ok 0")
+      | none => (st, "bad-op")
     | none => (st, "bad-op")
   | _ => (st, "bad-op")
 
